@@ -19,7 +19,7 @@ var htmlQuick = []Mix{
 	{Gen: "mut", Dict: "htmlfull", N: 250000},
 	{Gen: "novel", Dict: "htmlfull", N: 150000},
 	{Gen: "g04", N: 150000},
-	{Gen: "scale", N: 70000}, {Gen: "nulpad"},
+	{Gen: "scale", N: 70000}, {Gen: "seam"}, {Gen: "nulpad"}, {Gen: "wrapcount"}, {Gen: "foldalias"}, {Gen: "attrvals"},
 }
 
 var htmlThorough = []Mix{
@@ -30,7 +30,7 @@ var htmlThorough = []Mix{
 	{Gen: "mut", Dict: "htmlfull", N: 4000000},
 	{Gen: "novel", Dict: "htmlfull", N: 2000000},
 	{Gen: "g04", N: 2000000},
-	{Gen: "scale", N: 70000}, {Gen: "scale", N: 100000}, {Gen: "nulpad"},
+	{Gen: "scale", N: 70000}, {Gen: "scale", N: 100000}, {Gen: "seam", N: 1}, {Gen: "nulpad"}, {Gen: "wrapcount"}, {Gen: "foldalias"}, {Gen: "attrvals"},
 }
 
 func htmlPlan(quick, thorough []Mix) func(string, uint64) []core.Unit {
@@ -81,12 +81,12 @@ func c15() *core.Check {
 	quick := []Mix{
 		{Gen: "atoms", Dict: "htmlbytes0", K: 5},
 		{Gen: "atoms", Dict: "htmlfull0", K: 3},
-		{Gen: "f-corpus"}, {Gen: "f-seq", N: 300000}, {Gen: "f-mut", N: 300000}, {Gen: "f-g04", N: 300000}, {Gen: "f-bytetpl"}, {Gen: "f-utf8tpl"}, {Gen: "f-scale", N: 128 << 10}, {Gen: "f-padded"}, {Gen: "nulpad"}, {Gen: "huge", Dict: "quick"},
+		{Gen: "f-corpus"}, {Gen: "f-seq", N: 300000}, {Gen: "f-mut", N: 300000}, {Gen: "f-g04", N: 300000}, {Gen: "f-bytetpl"}, {Gen: "f-utf8tpl"}, {Gen: "f-scale", N: 128 << 10}, {Gen: "f-padded"}, {Gen: "nulpad"}, {Gen: "wrapcount"}, {Gen: "foldalias"}, {Gen: "attrvals"}, {Gen: "huge", Dict: "quick"},
 	}
 	thorough := []Mix{
 		{Gen: "atoms", Dict: "htmlbytes0", K: 6},
 		{Gen: "atoms", Dict: "htmlfull0", K: 4},
-		{Gen: "f-corpus"}, {Gen: "f-seq", N: 5000000}, {Gen: "f-mut", N: 5000000}, {Gen: "f-g04", N: 5000000}, {Gen: "f-bytetpl"}, {Gen: "f-utf8tpl"}, {Gen: "f-scale", N: 1 << 20}, {Gen: "f-scale", N: 100000}, {Gen: "f-padded", N: 1}, {Gen: "nulpad"}, {Gen: "huge", Dict: "thorough"},
+		{Gen: "f-corpus"}, {Gen: "f-seq", N: 5000000}, {Gen: "f-mut", N: 5000000}, {Gen: "f-g04", N: 5000000}, {Gen: "f-bytetpl"}, {Gen: "f-utf8tpl"}, {Gen: "f-scale", N: 1 << 20}, {Gen: "f-scale", N: 100000}, {Gen: "f-padded", N: 1}, {Gen: "nulpad"}, {Gen: "wrapcount"}, {Gen: "foldalias"}, {Gen: "attrvals"}, {Gen: "huge", Dict: "thorough"},
 	}
 	plan := func(tier string, seed uint64) []core.Unit {
 		mixes := quick
@@ -281,7 +281,7 @@ func checkH5Trace(s string, toks []li.VerifH5Token, capped bool) string {
 func c17() *core.Check {
 	return &core.Check{
 		ID: "C17",
-		Rule: "(1) every HTML workload input is tokenised from all five contexts with a step cap and the trace is checked against the range/order/count inequalities; (2) for each delimited construct (<% %>, CDATA, comment, <! >, <? >, doctype, quoted values embedded and as start context) every body over {terminator bytes, NUL, filler, '<'} up to length 6 (thorough 10), behind three text prefixes, is compared with a first-terminator oracle written from the property text: token offset, token length, resume offset. " +
+		Rule: "(1) every HTML workload input is tokenised from all five contexts with a step cap and the trace is checked against the range/order/count inequalities; (2) for each delimited construct (<% %>, CDATA, comment, <! >, <? >, doctype, quoted values embedded and as start context) every body over {terminator bytes, NUL, filler, '<'} up to length 6 (thorough 10), behind three text prefixes, every byte value and some multi-byte characters next to the terminators, the first terminator inside 18 kinds of look-alike nesting ([..], (..), quotes, <%..%>, <!--..-->, {{..}} ...) and followed directly by a re-opener of the same construct (]]]]><![CDATA[>), is compared with a first-terminator oracle written from the property text: token offset, token length, resume offset. " +
 			"Non-trivial = construct cases whose body holds at least one terminator byte, plus generic traces with >= 2 tokens; distinct by input.",
 		Plan: func(tier string, seed uint64) []core.Unit {
 			us := htmlPlan(htmlQuick, htmlThorough)(tier, seed)
@@ -303,7 +303,7 @@ func c17() *core.Check {
 		},
 		One: func(w *core.Worker, c core.Case) {
 			s := c.In
-			if len(s) > 1<<19 {
+			if len(s) > 1<<19 && c.Kind != "seam" {
 				return
 			}
 			w.Eval(1)
@@ -447,7 +447,7 @@ func c13() *core.Check {
 		},
 		One: func(w *core.Worker, c core.Case) {
 			s := c.In
-			if len(s) > 1<<19 && c.Kind != "hugeor" {
+			if len(s) > 1<<19 && c.Kind != "hugeor" && c.Kind != "seam" {
 				return
 			}
 			w.Eval(1)
